@@ -57,7 +57,7 @@ Bootstrap(filt) ==
 Watcher(kind, i, filt, start, pre) ==
   [kind |-> IF kind = "one" THEN "one" ELSE "all", id |-> i, filt |-> filt, start |-> start, pre |-> pre,
    dcount |-> 0, dpos |-> start, maxlag |-> wp - start, status |-> "active",
-   remote |-> FALSE, retry |-> TRUE, faults |-> 0, lastbm |-> -2]
+   remote |-> FALSE, retry |-> TRUE, faults |-> 0, lastbm |-> -2, fwp |-> -1]
 
 (* C13: watches through the gRPC client adapter; e.remote / e.retry are optional fields of the start line *)
 Remote(e, r) == IF "remote" \in DOMAIN e THEN [r EXCEPT !.remote = e.remote, !.retry = e.retry] ELSE r
@@ -66,7 +66,11 @@ Remote(e, r) == IF "remote" \in DOMAIN e THEN [r EXCEPT !.remote = e.remote, !.r
 ErroredJustified(r) ==
   \/ r.maxlag > InitCap
   \/ r.remote /\ r.faults > 0 /\ (~r.retry \/ r.lastbm < -1 \/ ~BookmarkAccepted(r.kind, r.lastbm, wp, CapAt(wp)))
+  (* the resume attempt happened at some write position between the first transport fault and now; with first-lap growth *)
+  (* a bookmark that is valid now (larger buffer) may have been too old then (fwp = write position at the first fault)   *)
+  \/ r.remote /\ r.faults > 0 /\ r.fwp >= 0 /\ \E x \in r.fwp..wp : ~BookmarkAccepted(r.kind, r.lastbm, x, CapAt(x))
 
+Bb(e) == IF "bb" \in DOMAIN e THEN e.bb ELSE FALSE
 Start(e) ==
   LET c == CapAt(wp)
       kd == IF e.kind = "one" THEN "one" ELSE "all"
@@ -79,7 +83,7 @@ Start(e) ==
          THEN Reject("bookmark-error-class", "invalidBookmark", e.res)
          ELSE /\ wst' = IF e.res = "ok"
                         THEN Put(wst, e.w, Remote(e, Watcher(kd, e.id, FALSE, e.p + 1,
-                                                             IF e.bb THEN <<Ev("noop", 0, 0, FALSE, 0, FALSE, e.p)>> ELSE <<>>)))
+                                                             IF Bb(e) THEN <<Ev("noop", 0, 0, FALSE, 0, FALSE, e.p)>> ELSE <<>>)))
                         ELSE wst
               /\ UNCHANGED <<log, cur, tid, bad>>
     [] OTHER ->
@@ -101,7 +105,7 @@ Start(e) ==
                         ELSE IF kd = "all" THEN Max(wp - Min(e.n, c - Gap), 0)
                         ELSE IF Len(pre) >= e.n /\ Len(pre) > 0 THEN pre[1].bm ELSE Retained(wp, c)
                   (* BootstrapBookmark with a tail: the initial Noop carries the bookmark right before the first tail position *)
-                  w0 == Watcher(kd, e.id, e.filt, wp, IF e.mode = "tail" /\ e.bb THEN <<Ev("noop", 0, 0, FALSE, 0, FALSE, ts - 1)>> \o pre ELSE pre)
+                  w0 == Watcher(kd, e.id, e.filt, wp, IF e.mode = "tail" /\ Bb(e) THEN <<Ev("noop", 0, 0, FALSE, 0, FALSE, ts - 1)>> \o pre ELSE pre)
               IN /\ wst' = Put(wst, e.w, Remote(e, [w0 EXCEPT !.dpos = ts, !.maxlag = wp - ts]))
                  /\ UNCHANGED <<log, cur, tid, bad>>
 
@@ -145,7 +149,7 @@ Next ==
        ELSE CASE e.ev = "write" -> Write(e)
               [] e.ev = "start" -> Start(e)
               [] e.ev = "recv"  -> Recv(e)
-              [] e.ev = "fault" -> /\ wst' = IF e.w \in DOMAIN wst THEN [wst EXCEPT ![e.w].faults = @ + 1] ELSE wst
+              [] e.ev = "fault" -> /\ wst' = IF e.w \in DOMAIN wst THEN [wst EXCEPT ![e.w].faults = @ + 1, ![e.w].fwp = IF @ < 0 THEN wp ELSE @] ELSE wst
                                    /\ UNCHANGED <<log, cur, tid, bad>>
               [] e.ev = "end"   -> End
               [] OTHER -> UNCHANGED <<log, cur, wst, tid, bad>>
